@@ -164,8 +164,36 @@ type Outcome struct {
 }
 
 // CallArith runs the apd operation on fresh operands.
-func CallArith(op string, ctx *apd.Context, x, y dec.D) Outcome {
+// usedDestination returns the destination for a monitored call. Two calls in
+// three (chosen by a hash of the first operand, so that a replay gets the
+// same one) write into a Decimal that was used before - it holds a huge
+// heap-backed coefficient, a NaN, an infinity or a small value - because that
+// is what destinations look like in a running program, and results must not
+// depend on it (C06).
+func usedDestination(x dec.D) *apd.Decimal {
 	d := new(apd.Decimal)
+	h := uint64(x.E)*0x9e3779b97f4a7c15 + uint64(x.Form)
+	if x.C != nil && x.C.Sign() != 0 {
+		h ^= uint64(x.C.Bits()[0]) * 0x94d049bb133111eb
+	}
+	h ^= h >> 31
+	switch h % 6 {
+	case 0:
+		c, _ := new(big.Int).SetString("987654321098765432109876543210987654321098765432109876543210987654321", 10)
+		br.SetApd(d, dec.D{Form: dec.Finite, Neg: true, C: c, E: -123})
+	case 1:
+		br.SetApd(d, dec.Special(dec.NaN, true))
+		d.Coeff.SetInt64(777)
+	case 2:
+		br.SetApd(d, dec.Special(dec.Inf, false))
+	case 3:
+		br.SetApd(d, dec.D{Form: dec.Finite, C: new(big.Int).Lsh(big.NewInt(12345), 70), E: 9})
+	}
+	return d
+}
+
+func CallArith(op string, ctx *apd.Context, x, y dec.D) Outcome {
+	d := usedDestination(x)
 	ax := br.ToApd(x)
 	var ay *apd.Decimal
 	if y.C != nil {
